@@ -93,7 +93,7 @@ func valKind(v Val) string {
 }
 
 func checkC10(c *Ctx) {
-	c.rule = "API driver: every receiver of a 51-value pool (all value types incl. objects, types, library functions, exception, Go value) x every member name extracted from the working tree (+unknown names) x {get, set, call, new, fn, str, dup, twin (continue on the copy), cmp, json} x argument tuples (arity 0..1 exhaustive over a 32-value boundary pool, arity 2 exhaustive in thorough, arity 2..4 random; for list / dictionary / text receivers additionally every position and position pair in [-2, length+2]), applied as step sequences on one receiver; plus scripted histories that copy a list / dictionary of 0..9 elements and alternate insertions and removals between the value and its copy, displaying both. Program driver: one- and two-statement Zn programs applying every operator / index / member / call / new / throw / loop form to input variables drawn from the same pools; plus user methods / type methods whose body ends in each of 25 failures (with no handler, a handler without and with 输出) whose call is placed in each of 26 consumer positions. Input-variable driver: texts without any statement (line breaks, comments, imports only), every right-hand-side kind, failing and ill-formed texts through ExecVarInputText. Violation = recovered Go panic, nil element without error, worker exit, or hang. distinct_nontrivial = distinct (receiver kind, step kind, member, arg kinds, outcome kind)"
+	c.rule = "API driver: every receiver of a 51-value pool (all value types incl. objects, types, library functions, exception, Go value) x every member name extracted from the working tree (+unknown names) x {get, set, call, new, fn, str, dup, twin (continue on the copy), cmp, json} x argument tuples (arity 0..1 exhaustive over a 32-value boundary pool, arity 2 exhaustive in thorough, arity 2..4 random; for list / dictionary / text receivers additionally every position and position pair in [-2, length+2]), applied as step sequences on one receiver; plus scripted histories that copy a list / dictionary of 0..9 elements and alternate insertions and removals between the value and its copy, displaying both. Program driver: one- and two-statement Zn programs applying every operator / index / member / call / new / throw / loop form to input variables drawn from the same pools; plus user methods / type methods whose body ends in each of 25 failures (with no handler, a handler without and with 输出) whose call is placed in each of 26 consumer positions. Whole-program driver: programs made of definitions / comments / imports only and programs yielding each kind of value, through Execute and through the playground HTTP handler. Input-variable driver: texts without any statement (line breaks, comments, imports only), every right-hand-side kind, failing and ill-formed texts through ExecVarInputText. Violation = recovered Go panic, nil element without error, worker exit, or hang. distinct_nontrivial = distinct (receiver kind, step kind, member, arg kinds, outcome kind)"
 	c.assumptions = []string{"library functions run inside the worker's private scratch directory", "member tables are read from /repo sources at check time by a string-literal scan"}
 	rng := c.Rand("c10")
 	members := memberNames()
@@ -444,6 +444,30 @@ func checkC10(c *Ctx) {
 		case "ok", "error":
 		default:
 			c.Violation("varinput:"+resp.Kind+":"+vtexts[i], fmt.Sprintf("input-variable text %q: outcome %s %s %s", vtexts[i], resp.Kind, clip(resp.Panic, 300), clip(resp.Stderr, 300)), map[string]interface{}{"req": req})
+		}
+	})
+	// whole programs through Execute and through the playground HTTP handler (which renders the
+	// result): programs that consist of definitions / comments / imports only, and programs
+	// whose result is each kind of value
+	whole := []string{"", "\n", "注：只有注释\n", "如何f？\n\t输出 1\n", "定义型：\n\t其甲 = 1\n", "定义型：\n\t其甲 = 1\n如何新建型？\n\t输入值\n\t其甲 = 值\n", "导入《@JSON》\n", "导入《@样品库》\n",
+		"如何f？\n\t输出 1\n定义型：\n\t其甲 = 1\n注：完\n", "输出 显示\n", "输出 异常\n", "输出 （新建异常：“x”）\n", "定义型：\n\t其甲 = 1\n输出 型\n", "定义型：\n\t其甲 = 1\n输出（新建型）\n",
+		"如何f？\n\t输出 1\n输出 f\n", "导入《@样品库》\n输出 样品\n", "导入《@样品库》\n输出（新建样品）\n", "导入《@样品库》\n输出 取常数\n", "导入《@样品库》\n输出（新建HTTP响应：200、“x”）\n", "输出 空\n", "输出 数值\n",
+		"如何f？\n\t如何g？\n\t\t输出 1\n输出（f）\n", "令甲 = 1\n", "1\n", "“a”\n", "【1，2】\n", "如果 假：\n\t输出 1\n", "每当 假：\n\t输出 1\n", "抛出异常：“x”！\n", "输出 1 / 0\n", "如果：\n"}
+	wreqs := []Req{}
+	for _, w := range whole {
+		r1 := execReq(w)
+		r1.Libs = true
+		r1.EvalBudget = 20000
+		wreqs = append(wreqs, r1, Req{Op: "pg", Src: Runes(w), EvalBudget: 20000}, Req{Op: "pg", Src: Runes(w), Text: "甲 = 1", EvalBudget: 20000})
+	}
+	c.runBatches(wreqs, 10, func(i int, req *Req, resp *Resp) {
+		c.Eval()
+		c.Count("whole_"+resp.Kind, 1)
+		c.Nontrivial(fmt.Sprintf("whole|%s|%s|%s", req.Op, RunesToString(req.Src), resp.Kind))
+		switch resp.Kind {
+		case "value", "error":
+		default:
+			c.Violation("whole:"+resp.Kind+":"+req.Op+"|"+RunesToString(req.Src), fmt.Sprintf("program %q through %s -> %s %s %s", RunesToString(req.Src), req.Op, resp.Kind, clip(resp.Panic, 300), clip(resp.Stderr, 300)), map[string]interface{}{"req": req})
 		}
 	})
 	preqs := make([]Req, len(pjobs))
